@@ -9,7 +9,7 @@
     the handler or naming nothing and OffAll remove On/Once handlers, an occurrence uses up Once
     handlers, and only offSubEvent(s) remove sub-event handlers). *)
 From SioV Require Import Base.GoSem Sio.HandlerStore Sio.HandlerStoreProofs Sio.HandlerStoreOrig
-  Sio.HandlerStoreHeap Sio.HandlerStoreHeapProofs.
+  Sio.HandlerStoreHeap Sio.HandlerStoreHeapProofs Sio.HandlerStoreHeapSim.
 
 (** For every call sequence (duplicates, several handlers removed in one call, absent handlers,
     any identity test) every occurrence runs exactly the handlers the specification names, in
@@ -119,6 +119,24 @@ Theorem C18_snapshot_never_changes : forall A (same : A -> A -> bool) st x k d,
   exists d', nth_error (hdisp A (fst (hstep A same st x))) k = Some d' /\ dsnap A d' = dsnap A d
              /\ dview A d' = dview A d.
 Proof. exact step_keeps_snapshot. Qed.
+
+(** ... and these snapshots, in the order the getAll calls ran, are exactly what the specification
+    by history prescribes for the call history in which each occurrence counts at its getAll
+    ([ehist]): so, with the theorem above, every occurrence in progress runs precisely the
+    handlers the property requires, whatever is called while it is being dispatched. *)
+Theorem C18_snapshots_are_spec : forall A (same : A -> A -> bool) (xs : list (hstepk A)),
+  snaps A (fst (hrun A same (hempty A) xs)) = map snd (espec_outs A same (ehist A xs)).
+Proof. exact snapshots_are_spec. Qed.
+
+(** The heap-level registry (arrays with identities, in-place append) refines the value-level
+    model step by step: read through [abs] it is the same registry. *)
+Theorem C18_heap_refines_model : forall A (same : A -> A -> bool) (xs : list (hstepk A)) st,
+  WF A st ->
+  WF A (fst (hrun A same st xs))
+  /\ abs A (fst (hrun A same st xs)) = fst (erun A same (abs A st) (ehist A xs))
+  /\ snaps A (fst (hrun A same st xs))
+     = snaps A st ++ map snd (snd (erun A same (abs A st) (ehist A xs))).
+Proof. exact sim_run. Qed.
 
 (** the scenario of the missed mutant: [a;b;c;d] registered, a removes itself while it runs *)
 Example C18_self_removal_during_dispatch :
